@@ -297,6 +297,21 @@ impl Op {
     }
 
     /// first target slot, without allocating
+    /// every slot the operation reads or writes (targets, sources, slots whose clones it consumes)
+    pub fn touches(&self) -> Vec<Slot> {
+        let mut v = self.targets();
+        match self {
+            Op::Clone { from, .. } | Op::CloneFrom { from, .. } | Op::Take { from, .. } | Op::WriteArg { from, .. } => v.push(*from),
+            Op::Swap { a, b } | Op::Compare { a, b } => {
+                v.push(*a);
+                v.push(*b);
+            }
+            Op::Extend { it, .. } | Op::Collect { it, .. } => v.extend(it.slots.iter().copied()),
+            _ => {}
+        }
+        v
+    }
+
     pub fn first_target(&self) -> Slot {
         match *self {
             Op::Take { slot, .. } => slot,
@@ -400,6 +415,21 @@ pub struct Plan {
     /// allocator request indices (0-based, counted over the whole history) that fail
     #[serde(default, skip_serializing_if = "Vec::is_empty")]
     pub faults: Vec<u64>,
+    /// another thread acting on ANOTHER handle in the middle of one operation
+    #[serde(default, skip_serializing_if = "Option::is_none")]
+    pub intrude: Option<Intrude>,
+}
+
+/// What a second thread could do while operation number `step` of the history runs: at the `at`-th point at which
+/// the crate calls the allocator or touches a buffer (the shim's hook events, counted within that operation), the
+/// handle in `slot` is dropped, or cloned (the clone lives until the operation returns). The slot is never one the
+/// operation itself uses, so this is an interleaving real threads can produce (C04: handles are Send + Sync).
+#[derive(Clone, Copy, Debug, PartialEq, Eq, Hash, Serialize, Deserialize)]
+pub struct Intrude {
+    pub step: u16,
+    pub at: u16,
+    pub slot: Slot,
+    pub drop: bool,
 }
 
 #[derive(Clone, Debug, PartialEq, Eq, Hash, Serialize, Deserialize)]
